@@ -38,8 +38,8 @@ How to build things:
   * single program:  g++ -std=c++17 -O2 -g -DNDEBUG -DYAKUSHIMA_EPOCH_TIME=40 -DYAKUSHIMA_MAX_PARALLEL_SESSIONS=8 -DYAKUSHIMA_LINUX
         -I{wt}/include -I{wt}/test/include demo.cpp -o demo -lglog -ltbb -lpthread
     (most tests do init() ... fin(); look at {wt}/test/*.cpp and {wt}/test/*/ for API usage; #include "kvs.h")
-  * whole suite (takes ~10 min to build and ~15 min to run; do it ONCE, at the end, when the demo already works):
-        cd {wt} && cmake -G Ninja -B _build -DCMAKE_BUILD_TYPE=RelWithDebInfo -DCMAKE_CXX_FLAGS=-Wno-error . > /dev/null
+  * whole suite (takes a few minutes to build, well under a minute to run; the googletest sources come from /usr/src/googletest; -DBUILD_STRICT=OFF avoids a pre-existing -Werror failure in one test file):
+        cd {wt} && mkdir -p third_party/googletest && cp -r /usr/src/googletest/. third_party/googletest/ 2>/dev/null; cmake -G Ninja -B _build -DCMAKE_BUILD_TYPE=RelWithDebInfo -DBUILD_STRICT=OFF -DCMAKE_CXX_FLAGS=-Wno-error . > /dev/null
         && cmake --build _build -j 12 > _build/build.log 2>&1 ; ctest --test-dir _build -j8 --timeout 900 > {wt}-out/ctest.log 2>&1
     All tests must pass except yakushima_test-multi_thread_delete_100k_key_test, which already fails (time-out) on the
     unmodified library and is ignored. The sandbox has no network. If your change makes any other test fail, it is not
